@@ -638,7 +638,188 @@ fn three_way(ctx: &Ctx) {
     }
 }
 
+/// Very wide levels: a root producer with `width` leaf children of which one is unsatisfied (first / middle / one of the last three);
+/// and a producer level of `width` roots feeding one leaf.
+fn wide_levels(ctx: &Ctx) {
+    let leaf = |a: u8| Node { edge_start: u16::MAX, program_address: ca(a) };
+    for width in [17usize, 31, 32, 33, 34, 35, 63, 64, 65, 67, 100, 129, 257] {
+        let mut bads: Vec<Option<usize>> = vec![None, Some(0), Some(width / 2), Some(width - 1), Some(width - 2), Some(width - 3)];
+        bads.dedup();
+        for bad in bads {
+            let id = format!("wide/fan-out/{width}/{:?}", bad);
+            if !ctx.want(&id) {
+                continue;
+            }
+            let mut progs = BTreeMap::new();
+            progs.insert(ca(1), bytes(producer(0)));
+            progs.insert(ca(2), bytes(constraint(&[100], &[200])));
+            progs.insert(ca(3), bytes(constraint(&[101], &[200])));
+            let mut nodes = vec![Node { edge_start: 0, program_address: ca(1) }];
+            let edges: Vec<u16> = (1..=width as u16).collect();
+            for k in 0..width {
+                nodes.push(leaf(if Some(k) == bad { 3 } else { 2 }));
+            }
+            let mut preds = BTreeMap::new();
+            preds.insert(ca(0xA0), Predicate { nodes, edges });
+            let case = Case { pre: PreState::default(), set: SolutionSet { solutions: vec![one_solution(ca(0xA0), ca(0xC0), vec![])] }, preds, progs };
+            run_case(ctx, &id, "every node of a level is executed exactly once, however wide the level is (verdict, failing leaf indices, gas)", &case,
+                || format!("one producer with {width} leaf children, unsatisfied child: {:?}", bad));
+        }
+        let id = format!("wide/fan-in/{width}");
+        if ctx.want(&id) {
+            // `width` root producers (each pushes one word and allocates one) feed one leaf that checks the number of inherited words
+            let mut progs = BTreeMap::new();
+            progs.insert(ca(1), bytes(vec![push(7), push(1), asm::Memory::Alloc.into(), asm::Stack::Pop.into()]));
+            let mut sum: Vec<asm::Op> = (0..width - 1).map(|_| asm::Alu::Add.into()).collect();
+            sum.extend([push(7 * width as Word), asm::Pred::Eq.into(), push(0), asm::Memory::Alloc.into(), push(width as Word), asm::Pred::Eq.into(), asm::Pred::And.into()]);
+            progs.insert(ca(2), bytes(sum));
+            let mut nodes: Vec<Node> = (0..width).map(|k| Node { edge_start: k as u16, program_address: ca(1) }).collect();
+            nodes.push(leaf(2));
+            let edges = vec![width as u16; width];
+            let mut preds = BTreeMap::new();
+            preds.insert(ca(0xA0), Predicate { nodes, edges });
+            let case = Case { pre: PreState::default(), set: SolutionSet { solutions: vec![one_solution(ca(0xA0), ca(0xC0), vec![])] }, preds, progs };
+            run_case(ctx, &id, "every node of a level is executed exactly once, however wide the level is (verdict, failing leaf indices, gas)", &case, || format!("{width} root producers feeding one leaf"));
+        }
+    }
+}
+
+/// Data-output leaves with unusual memories: empty, a single zero, an empty mutation list.
+fn odd_outputs(ctx: &Ctx) {
+    let leaf = |a: u8| Node { edge_start: u16::MAX, program_address: ca(a) };
+    let variants: Vec<(&str, Vec<asm::Op>)> = vec![
+        ("empty-memory", vec![push(2)]),
+        ("freed-memory", vec![push(3), asm::Memory::Alloc.into(), asm::Stack::Pop.into(), push(0), asm::Memory::Free.into(), push(2)]),
+        ("zero-mutations", vec![push(1), asm::Memory::Alloc.into(), asm::Stack::Pop.into(), push(2)]),
+        // one mutation announced whose key length points beyond the memory (a bare count without any mutation is accepted by the decoder and not covered by any property)
+        ("truncated-mutation", vec![push(2), asm::Memory::Alloc.into(), asm::Stack::Pop.into(), push(1), push(0), asm::Memory::Store.into(), push(5), push(1), asm::Memory::Store.into(), push(2)]),
+    ];
+    for (name, ops) in &variants {
+        for with_other in [false, true] {
+            let id = format!("odd-output/{name}/{with_other}");
+            if !ctx.want(&id) {
+                continue;
+            }
+            let mut progs = BTreeMap::new();
+            progs.insert(ca(1), bytes(ops.clone()));
+            progs.insert(ca(2), bytes(data_output(&[4], &[5])));
+            let mut nodes = vec![leaf(1)];
+            if with_other {
+                nodes.push(leaf(2));
+            }
+            let mut preds = BTreeMap::new();
+            preds.insert(ca(0xA0), Predicate { nodes, edges: vec![] });
+            let case = Case { pre: PreState::default(), set: SolutionSet { solutions: vec![one_solution(ca(0xA0), ca(0xC0), vec![])] }, preds, progs };
+            run_case(ctx, &id, "a leaf ending in [2] reports its whole memory as a data output, which must decode as a list of mutations", &case, || format!("data-output leaf variant {name}"));
+        }
+    }
+}
+
+/// Many solutions: n solutions (several of them of the same contract) each declare or compute one mutation; a reader in the last / first /
+/// a middle solution reads all keys of one contract from the post state.
+fn many_solutions(ctx: &Ctx) {
+    let leaf = |a: u8| Node { edge_start: u16::MAX, program_address: ca(a) };
+    for n in [4usize, 7, 8, 9, 12, 16, 17, 33, 64] {
+        for reader_at in [0usize, n / 2, n - 1] {
+            for computed_every in [0usize, 3] {
+                let id = format!("many-solutions/{n}/{reader_at}/{computed_every}");
+                if !ctx.want(&id) {
+                    continue;
+                }
+                let mut pre = PreState::default();
+                let mut progs = BTreeMap::new();
+                let mut preds = BTreeMap::new();
+                progs.insert(ca(9), bytes(vec![push(1)]));
+                preds.insert(ca(0xA9), Predicate { nodes: vec![leaf(9)], edges: vec![] });
+                let mut solutions = vec![];
+                let mut expect: Vec<Words> = vec![];
+                for k in 0..n {
+                    // keys [10 + k] of contract C0 (two of three solutions) or C1; every key has a pre-state value; odd k delete
+                    let contract = if k % 3 == 2 { ca(0xC1) } else { ca(0xC0) };
+                    let key = vec![10 + k as Word];
+                    let value: Words = if k % 2 == 1 { vec![] } else { vec![1000 + k as Word] };
+                    pre.0.entry(contract.clone()).or_default().insert(key.clone(), vec![-1]);
+                    if k != reader_at && computed_every != 0 && k % computed_every == 0 {
+                        let pa = 0x30 + k as u8;
+                        progs.insert(ca(pa), bytes(data_output(&key, &value)));
+                        preds.insert(ca(pa), Predicate { nodes: vec![leaf(pa)], edges: vec![] });
+                        solutions.push(one_solution(ca(pa), contract.clone(), vec![]));
+                    } else if k != reader_at {
+                        solutions.push(one_solution(ca(0xA9), contract.clone(), vec![Mutation { key: key.clone(), value: value.clone() }]));
+                    }
+                    if k % 3 != 2 {
+                        expect.push(if k == reader_at { vec![-1] } else { value });
+                    }
+                }
+                // the reader: all keys 10 .. 10 + n of contract C0 (keys of C1 are absent there: empty values)
+                let mut all: Vec<Words> = vec![];
+                for k in 0..n {
+                    if k % 3 == 2 {
+                        all.push(vec![]);
+                    } else {
+                        all.push(expect.remove(0));
+                    }
+                }
+                let room = 2 * n + all.iter().map(|v| v.len()).sum::<usize>();
+                let mut rd = post_read(&[10], n, room, 0, Some(&ca(0xC0)));
+                rd.extend(expect_stack(&layout(&all, 0, room)));
+                progs.insert(ca(0x20), bytes(rd));
+                preds.insert(ca(0xA8), Predicate { nodes: vec![leaf(0x20)], edges: vec![] });
+                solutions.insert(reader_at.min(solutions.len()), one_solution(ca(0xA8), ca(0xC2), vec![]));
+                let case = Case { pre, set: SolutionSet { solutions }, preds, progs };
+                run_case(ctx, &id, "post-state reads see the pre-state overlaid with the mutations of all solutions of the set, however many there are", &case,
+                    || format!("{n} solutions, reader at position {reader_at}, every {computed_every}th mutation computed"));
+            }
+        }
+    }
+}
+
+/// Post-state readers whose read op is hard to find: far into a long program, after a Halt that is jumped over, after pushes that contain the opcode.
+fn hidden_readers(ctx: &Ctx) {
+    let leaf = |a: u8| Node { edge_start: u16::MAX, program_address: ca(a) };
+    let key = vec![3i64];
+    let block = layout(&[vec![77]], 0, 6);
+    let mut shapes: Vec<(String, Vec<asm::Op>)> = vec![];
+    for pad in [0usize, 100, 1100, 1111, 1112, 2000, 7300] {
+        // `pad` rounds of Push / Pop (10 bytes each) in front of the read
+        let mut ops: Vec<asm::Op> = vec![];
+        for i in 0..pad {
+            ops.push(push(i as Word));
+            ops.push(asm::Stack::Pop.into());
+        }
+        shapes.push((format!("padded-{pad}"), ops));
+    }
+    shapes.push(("after-skipped-halt".into(), vec![push(2), push(1), asm::TotalControlFlow::JumpIf.into(), asm::TotalControlFlow::Halt.into()]));
+    shapes.push(("after-untaken-halt-if".into(), vec![push(0), asm::TotalControlFlow::HaltIf.into()]));
+    shapes.push(("after-skipped-panic".into(), vec![push(0), asm::TotalControlFlow::PanicIf.into()]));
+    shapes.push(("after-compute".into(), vec![push(1), asm::Compute::Compute.into(), asm::Stack::Pop.into(), asm::Compute::ComputeEnd.into()]));
+    for (name, prefix) in shapes {
+        for ext in [false, true] {
+            let id = format!("hidden-reader/{name}/{ext}");
+            if !ctx.want(&id) {
+                continue;
+            }
+            let mut pre = PreState::default();
+            pre.0.entry(ca(0xC0)).or_default().insert(key.clone(), vec![5, 5, 5]);
+            let mut progs = BTreeMap::new();
+            let mut rd = prefix.clone();
+            let c0 = ca(0xC0);
+            rd.extend(post_read(&key, 1, 6, 0, if ext { Some(&c0) } else { None }));
+            rd.extend(expect_stack(&block));
+            progs.insert(ca(2), bytes(rd));
+            let mut preds = BTreeMap::new();
+            preds.insert(ca(0xA0), Predicate { nodes: vec![leaf(2)], edges: vec![] });
+            let case = Case { pre, set: SolutionSet { solutions: vec![one_solution(ca(0xA0), ca(0xC0), vec![Mutation { key: key.clone(), value: vec![77] }])] }, preds, progs };
+            run_case(ctx, &id, "a node whose program contains a post-state read anywhere is run in the second pass and sees the overlay", &case, || format!("post-state reader with prefix {name}, extern={ext}"));
+        }
+    }
+}
+
 pub fn run(ctx: &Ctx) {
+    wide_levels(ctx);
+    odd_outputs(ctx);
+    many_solutions(ctx);
+    hidden_readers(ctx);
     three_way(ctx);
     concat_limits(ctx);
     sampled(ctx);
